@@ -33,6 +33,13 @@ func SiblingJSON(t *tape.Tape, data []byte) (out []byte, desc string) {
 	walk = func(v interface{}, path string, s *slot) {
 		switch x := v.(type) {
 		case map[string]interface{}:
+			if nm, _ := x["name"].(string); strings.HasPrefix(nm, "javascript") {
+				// a javascript declaration is left as it is: the generated scripts are written to stay
+				// inside what the checks claim (e.g. what a script defines under the name of its own
+				// argument is removed with the argument); with an argument renamed or the script text
+				// changed they would not
+				return
+			}
 			keys := make([]string, 0, len(x))
 			for k := range x {
 				keys = append(keys, k)
